@@ -607,7 +607,13 @@ pub fn check(def: &'static PropDef, tier: &str, seed: u64) -> i32 {
     for s in specs.iter_mut().take(6) {
         s.want_trace = true;
     }
+    // a check with a second phase (fault-position sweeps) keeps 45 % of its budget for it
+    let full_deadline = co.deadline;
+    if def.extra_phase.is_some() {
+        co.deadline = co.t0 + full_deadline.duration_since(co.t0).mul_f64(0.55);
+    }
     let outs = co.run_batch(specs.clone(), "random");
+    co.deadline = full_deadline;
     if let Some(f) = def.extra_phase {
         f(&mut co);
     }
